@@ -172,6 +172,14 @@ def energy_case(ctx, cfg, rng, variant):
         gl = [Gate("RY", q, parameter=round(rng.uniform(0.2, 2.5), 4)) for q in range(nq)] + [Gate("CNOT", (q + 1) % nq, q) for q in range(nq - 1)]
         extra["ref_state"] = Circuit(gl)
         case["ref_state"] = "circuit:" + json.dumps([[g.name, list(g.target), list(g.control) if g.control else None, g.parameter] for g in gl])
+    pen = None
+    if variant == "penalty":
+        mu = rng.choice([0.5, 1.5, 3.0])
+        pen = {"N": [mu, mol.n_active_electrons + rng.choice([0, 0, 1])], "Sz": [mu, rng.choice([0, 0.5 * mol.active_spin])],
+               "S^2": [mu, rng.choice([0, 2])]}
+        pen = {k: v for k, v in pen.items() if rng.random() < 0.8} or {"N": [mu, mol.n_active_electrons]}
+        extra["penalty_terms"] = pen
+        case["penalty_terms"] = pen
     try:
         solver, mol = build_solver(cfg, rng, extra)
     except Exception as e:
@@ -179,6 +187,27 @@ def energy_case(ctx, cfg, rng, variant):
         return True
     n_par = len(solver.initial_var_params)
     Hfull_min = None
+    # the target operator is the encoded molecular Hamiltonian (+ penalties), built with the active-space data
+    if cfg["mapping"].upper() != "HCB":
+        from tangelo.toolboxes.qubit_mappings.mapping_transform import fermion_to_qubit_mapping
+        from tangelo.toolboxes.operators import FermionOperator, count_qubits
+        ref_f = FermionOperator()
+        ref_f.terms = dict(mol.fermionic_hamiltonian.terms)
+        if pen:
+            sym = indep_sym(mol.n_active_mos)
+            for name, (mu_, tgt) in pen.items():
+                d = sym[name] - tgt
+                pf = mu_ * d * d
+                for t_, c_ in pf.terms.items():
+                    ref_f.terms[t_] = ref_f.terms.get(t_, 0) + c_
+        ref_q = fermion_to_qubit_mapping(ref_f, cfg["mapping"], n_spinorbitals=mol.n_active_sos, n_electrons=mol.n_active_electrons,
+                                         up_then_down=cfg["utd"], spin=mol.active_spin)
+        nq_h = mol.n_active_sos - (2 if cfg["mapping"].lower() == "scbk" else 0)
+        ctx.count("hamiltonian:" + ("penalty" if pen else "plain"))
+        if count_qubits(solver.qubit_hamiltonian) > nq_h or not np.allclose(fock.qubit_matrix(solver.qubit_hamiltonian, nq_h), fock.qubit_matrix(ref_q, nq_h), atol=1e-8):
+            ctx.violation(f"the solver's target operator is not the {cfg['mapping']} image of the molecular Hamiltonian{' plus the requested penalties ' + str(pen) if pen else ''} "
+                          f"built with the active-space electron / spin data ({cfg})", case)
+            return False
     for rep in range(2):
         theta = rand_params(rng, n_par, zero=(rep == 0 and variant == "plain" and rng.random() < 0.3))
         c = {**case, "theta": theta}
@@ -196,7 +225,7 @@ def energy_case(ctx, cfg, rng, variant):
         if E < ev[0] - TOL:
             ctx.violation(f"energy {E!r} below the lowest eigenvalue {ev[0]!r} of the solver's Hamiltonian", c)
             return False
-        if cfg["mapping"].upper() != "HCB" and mol.n_active_sos <= 8:
+        if cfg["mapping"].upper() != "HCB" and mol.n_active_sos <= 8 and not pen:
             if Hfull_min is None:
                 Hfull_min = fermi_min_eig(mol, cfg)
             if cfg["mapping"].lower() == "scbk":
@@ -472,6 +501,12 @@ def run(ctx):
             if variant != "plain" and cfg["ansatz"] not in ("UCCSD", "UpCCGSD", "UCCGD", "HEA"):
                 continue
             ok &= energy_case(ctx, cfg, rng, variant)
+    # penalty terms: every encoding, molecules with and without (an odd number of) frozen occupied orbitals
+    pen_cfgs = [c for c in cfgs if c["ansatz"] == "UCCSD" and c["mol"] in ("H2", "H4f", "H4+")]
+    rng.shuffle(pen_cfgs)
+    must = [c for c in pen_cfgs if c["mapping"] == "scBK" and c["mol"] == "H4f"][:2]
+    for cfg in must + [c for c in pen_cfgs if c not in must][:ctx.n(4, len(pen_cfgs))]:
+        ok &= energy_case(ctx, cfg, rng, "penalty")
     defl = [c for c in cfgs if c["ansatz"] in ("UCCSD", "UpCCGSD", "HEA", "pUCCD", "QCC") and c["mol"] in ("H2", "H4f")]
     for _ in range(ctx.n(8, 40)):
         ok &= deflation_case(ctx, rng.choice(defl), rng)
